@@ -540,16 +540,23 @@ theorem laterChunk_inv {env : DEnv} {s : DState} (h : DealerInv s) (reg : Reg)
   exact (mem_map_update (f := fun x : Invk => x.id) (u := fun _ => { v0 with inProgress := opts.optFlag OptProgress })).2
     (Or.inr ⟨v0, hv, rfl, rfl⟩)
 
+theorem noProc_inv {env : DEnv} {s : DState} (h : DealerInv s) (caller : SessKey) (req : Nat) :
+    DealerInv (noProc env s caller req).st := by
+  unfold noProc
+  split
+  · exact syncCancel_inv h ..
+  · exact h
+
 theorem syncCall_inv {env : DEnv} {s : DState} (h : DealerInv s) (caller : SessKey) (req : Nat) (opts : Dict)
     (proc : String) (args : List WVal) (kw : Dict) (rnd : Nat) :
     DealerInv (syncCall env s caller req opts proc args kw rnd).st := by
   rw [syncCall_eq]
   split
-  · exact h
+  · exact noProc_inv h ..
   · rename_i reg hm
     have hmem := matchProcedure_mem hm
     split
-    · exact h
+    · exact noProc_inv h ..
     · split
       · exact h
       · split
